@@ -190,6 +190,45 @@ def _log_on_copy(x, method, warm=False):
     return [getattr(c, method)(logging=True), str(c)]
 
 
+def _charged_forms(m):
+    out = []
+    for t in m.copy().enumerate_charged_forms(limit=20):
+        out.append(str(t))
+        if len(out) >= 6:
+            break
+    return out
+
+
+def _mcs(m):
+    if len(m) > 25:
+        return None
+    other = m.copy()
+    atoms = list(other)
+    if len(atoms) > 3:
+        other.delete_atom(atoms[len(atoms) // 2])
+    out = []
+    for x in m.get_mcs_mapping(other, limit=2000):
+        out.append(sorted(x.items()))
+        if len(out) >= 3:
+            break
+    return out
+
+
+OBSERVERS['enumerate_charged_forms'] = _charged_forms
+OBSERVERS['mcs'] = _mcs
+OBSERVERS['split'] = lambda m: [str(x) for x in m.split()]
+for _name, _meth in (('remove_metals_log', 'remove_metals'), ('remove_acids_log', 'remove_acids'),
+                     ('split_metal_salts_log', 'split_metal_salts')):
+    OBSERVERS[_name] = (lambda meth: lambda m, warm=False: _log_on_copy_late(m, meth, warm))(_meth)
+for _name, _meth in (('rxn_remove_reagents', 'remove_reagents'), ('rxn_contract_ions', 'contract_ions'),
+                     ('rxn_fix_mapping', 'fix_mapping'), ('rxn_fix_groups_mapping', 'fix_groups_mapping')):
+    OBSERVERS[_name] = (lambda meth: lambda r, warm=False: _rxn_on_copy(r, meth, warm))(_meth)
+
+
+def _log_on_copy_late(x, method, warm=False):
+    return _log_on_copy(x, method, warm)
+
+
 for _name, _meth in (('canonicalize_log', 'canonicalize'), ('standardize_log', 'standardize'), ('neutralize_log', 'neutralize'),
                      ('standardize_charges_log', 'standardize_charges'), ('fix_resonance_log', 'fix_resonance'),
                      ('implicify_hydrogens_log', 'implicify_hydrogens')):
@@ -197,7 +236,8 @@ for _name, _meth in (('canonicalize_log', 'canonicalize'), ('standardize_log', '
 for _name, _meth in (('rxn_canonicalize_log', 'canonicalize'), ('rxn_standardize_log', 'standardize')):
     OBSERVERS[_name] = (lambda meth: lambda m, warm=False: _log_on_copy(m, meth, warm))(_meth)
 
-WARMABLE = {'canonicalize_log', 'standardize_log', 'neutralize_log', 'standardize_charges_log', 'fix_resonance_log',
+WARMABLE = {'remove_metals_log', 'remove_acids_log', 'split_metal_salts_log', 'rxn_remove_reagents', 'rxn_contract_ions',
+            'rxn_fix_mapping', 'rxn_fix_groups_mapping', 'canonicalize_log', 'standardize_log', 'neutralize_log', 'standardize_charges_log', 'fix_resonance_log',
             'implicify_hydrogens_log', 'rxn_canonicalize_log', 'rxn_standardize_log','canonicalize', 'standardize', 'neutralize', 'kekule', 'thiele', 'clean_stereo', 'clean_isotopes',
             'implicify_hydrogens', 'explicify_hydrogens', 'rxn_canonicalize', 'rxn_standardize', 'rxn_kekule', 'rxn_thiele',
             'rxn_clean_stereo', 'rxn_clean_isotopes', 'rxn_implicify_hydrogens', 'rxn_explicify_hydrogens'}
